@@ -207,3 +207,61 @@ package keeper
 //@   letpost b1 = k.GetBorrow(ctx, borrowID).0
 //@   ensures #c08-ltv-after-draw: err == nil ==> k.CalculateCollateralizationRatio(ctx, b1.AmountIn.Amount, ain, b1.AmountOut.Amount + trunc(b1.InterestAccumulated), aout).1 == nil && k.CalculateCollateralizationRatio(ctx, b1.AmountIn.Amount, ain, b1.AmountOut.Amount + trunc(b1.InterestAccumulated), aout).0 <= ltv
 //@   ensures #c08-draw-not-liquidated: err == nil ==> !b0.IsLiquidated
+
+// Interest accrual of one borrow position (C08): principal, pledged collateral and identity of the position, every other
+// borrow, every lend position and the published pool totals are untouched - only accrued interest and its tracker move.
+//@ func (k Keeper) IterateBorrow
+//@   property C08
+//@   modular
+//@   modifies lend
+//@   let b0 = k.GetBorrow(ctx, ID).0
+//@   let bf0 = k.GetBorrow(ctx, ID).1
+//@   requires #borrow-keyed: bf0 ==> b0.ID == ID
+//@   letpost b1 = k.GetBorrow(ctx, ID).0
+//@   ensures #c08-accrual-keeps-principal: result2 == nil && bf0 ==> k.GetBorrow(ctx, ID).1 && b1.ID == b0.ID && b1.AmountOut == b0.AmountOut && b1.AmountIn == b0.AmountIn && b1.PairID == b0.PairID && b1.LendingID == b0.LendingID && b1.IsLiquidated == b0.IsLiquidated && b1.IsStableBorrow == b0.IsStableBorrow && b1.BridgedAssetAmount == b0.BridgedAssetAmount
+//@   ensures #c08-accrual-borrow-frame: result2 == nil ==> forall j :: j != ID ==> k.GetBorrow(ctx, j) == old(k.GetBorrow(ctx, j))
+//@   ensures #c08-accrual-lend-frame: result2 == nil ==> forall j :: k.GetLend(ctx, j) == old(k.GetLend(ctx, j))
+//@   ensures #c08-accrual-totals-frame: result2 == nil ==> forall p, a :: k.GetAssetStatsByPoolIDAndAssetID(ctx, p, a) == old(k.GetAssetStatsByPoolIDAndAssetID(ctx, p, a))
+//@   ensures #c08-accrual-config-frame: result2 == nil ==> (forall p :: k.GetLendPair(ctx, p) == old(k.GetLendPair(ctx, p))) && (forall p :: k.GetPool(ctx, p) == old(k.GetPool(ctx, p))) && (forall a :: k.GetAssetRatesParams(ctx, a) == old(k.GetAssetRatesParams(ctx, a)))
+
+// Partial repayment (C08): the payer pays exactly the payment; whatever part of it retires principal lowers the published
+// borrowed total of the borrowed asset by the same amount (pool total minus this position's principal does not move); never
+// on a liquidated position. (A payment equal to the whole debt goes through CloseBorrow, not covered by this contract.)
+//@ func (k Keeper) RepayAsset
+//@   property C08
+//@   prune
+//@   let b0 = k.GetBorrow(ctx, borrowID).0
+//@   let bf0 = k.GetBorrow(ctx, borrowID).1
+//@   let pair = k.GetLendPair(ctx, b0.PairID).0
+//@   let so0 = k.GetAssetStatsByPoolIDAndAssetID(ctx, pair.AssetOutPoolID, pair.AssetOut).0
+//@   let pm = modaddr(k.GetPool(ctx, pair.AssetOutPoolID).0.ModuleName)
+//@   requires #borrow-keyed: bf0 ==> b0.ID == borrowID && b0.AmountOut.Amount >= 0
+//@   requires #not-the-closing-payment: payment.Amount != b0.AmountOut.Amount + trunc(b0.InterestAccumulated)
+//@   requires #out-stats-keyed: k.GetAssetStatsByPoolIDAndAssetID(ctx, pair.AssetOutPoolID, pair.AssetOut).1 && so0.PoolID == pair.AssetOutPoolID && so0.AssetID == pair.AssetOut
+//@   requires #accounts: addr(borrowerAddr) != pm && addr(borrowerAddr) != modaddr("lendV2")
+//@   letpost b1 = k.GetBorrow(ctx, borrowID).0
+//@   letpost so1 = k.GetAssetStatsByPoolIDAndAssetID(ctx, pair.AssetOutPoolID, pair.AssetOut).0
+//@   ensures #c08-borrowed-total-moves-with-principal: err == nil ==> (so1.TotalBorrowed + so1.TotalStableBorrowed) - b1.AmountOut.Amount == (so0.TotalBorrowed + so0.TotalStableBorrowed) - b0.AmountOut.Amount
+//@   ensures #c08-principal-never-grows: err == nil ==> b1.AmountOut.Amount <= b0.AmountOut.Amount && b1.AmountOut.Amount >= 0
+//@   ensures #c08-payer-pays-exactly: err == nil ==> bal(addr(borrowerAddr), payment.Denom) == old(bal(addr(borrowerAddr), payment.Denom)) - payment.Amount
+//@   ensures #c08-repay-not-liquidated: err == nil ==> !b0.IsLiquidated
+
+// Closing a borrow (C08): the whole principal leaves the published borrowed total, the pledged collateral goes back into
+// the lend position's available amount, the borrower pays principal plus accrued interest (truncated) and receives the
+// pledged cTokens back, and the borrow position is removed.
+//@ func (k Keeper) CloseBorrow
+//@   property C08
+//@   let b0 = k.GetBorrow(ctx, borrowID).0
+//@   let bf0 = k.GetBorrow(ctx, borrowID).1
+//@   let pair = k.GetLendPair(ctx, b0.PairID).0
+//@   let l0 = k.GetLend(ctx, b0.LendingID).0
+//@   let so0 = k.GetAssetStatsByPoolIDAndAssetID(ctx, pair.AssetOutPoolID, pair.AssetOut).0
+//@   requires #borrow-keyed: bf0 ==> b0.ID == borrowID && b0.AmountOut.Amount >= 0
+//@   requires #lend-keyed: k.GetLend(ctx, b0.LendingID).1 ==> l0.ID == b0.LendingID
+//@   requires #out-stats-keyed: k.GetAssetStatsByPoolIDAndAssetID(ctx, pair.AssetOutPoolID, pair.AssetOut).1 && so0.PoolID == pair.AssetOutPoolID && so0.AssetID == pair.AssetOut
+//@   letpost so1 = k.GetAssetStatsByPoolIDAndAssetID(ctx, pair.AssetOutPoolID, pair.AssetOut).0
+//@   letpost l1 = k.GetLend(ctx, b0.LendingID).0
+//@   ensures #c08-close-retires-principal-from-total: err == nil ==> so1.TotalBorrowed + so1.TotalStableBorrowed == so0.TotalBorrowed + so0.TotalStableBorrowed - b0.AmountOut.Amount
+//@   ensures #c08-close-returns-pledge-to-position: err == nil ==> l1.AvailableToBorrow == l0.AvailableToBorrow + b0.AmountIn.Amount
+//@   ensures #c08-close-removes-borrow: err == nil ==> !k.GetBorrow(ctx, borrowID).1
+//@   ensures #c08-close-not-liquidated: err == nil ==> !b0.IsLiquidated
